@@ -103,7 +103,7 @@ QKeys == <<KX, KY, KXY, KYX, KE, KS, KQ, KP, KM, KB>>
 StrKeys == <<KXY, KE, KS, KQ, KP, KB>>
 
 IntRanks == 0..8          \* driver: MinInt64, -2^53-1, -1, 0, 1, 2^31, 2^53+1, MaxInt64-1, MaxInt64
-FloatRanks == 0..7        \* driver: -Inf, -1e300, -1.5, 0, 5e-324, 0.1, 1e300, +Inf   (fields: 1..6 only)
+FloatRanks == 0..8        \* driver: -Inf, -1e300, -1.5, 0, 5e-324, 0.1, float32(0.1) = 0.10000000149011612, 1e300, +Inf   (fields: 1..6 only)
 
 SRec(x, y, xy, yx, e) == <<Field(KX, IntV(x)), Field(KY, FloatV(y)), Field(KXY, StrV(xy)), Field(KYX, BoolV(yx)), Field(KE, StrV(e))>>
 
@@ -173,7 +173,7 @@ KeyFor(op, n) == IF n % 10 < 7 THEN Nth(KeysOfKind(FieldKind(op)), n \div 10) EL
 StrFor(n) == IF n % 3 = 0 THEN Nth(StrOperandSeq, n \div 3) ELSE Nth(FieldStrSeq, n \div 3)
 ValFor(op, n, m) ==
     CASE op \in IntOps -> IntV(n % 9)
-      [] op \in FloatOps -> FloatV(IF n % 10 = 9 THEN NaN ELSE n % 8)
+      [] op \in FloatOps -> FloatV(IF n % 10 = 9 THEN NaN ELSE n % 9)
       [] op \in StrOps -> StrV(StrFor(n))
       [] op = "in" -> ListV(IF m % 2 = 0 THEN <<Nth(InElemSeq, n), Nth(InElemSeq, m)>>
                             ELSE <<Nth(InElemSeq, n), Nth(InElemSeq, m), Nth(InElemSeq, n + m)>>)
